@@ -128,7 +128,7 @@ func remember(raw []byte) {
 func historyIndependence(rep *lib.Report) {
 	run := func(raw []byte) (string, bool) {
 		var ln printerLine
-		if json.Unmarshal(raw, &ln) != nil || lib.HasKind(ln.C.Ts, "ptrto", "chan", "func") {
+		if json.Unmarshal(raw, &ln) != nil || printsAddresses(&ln) {
 			return "", false
 		}
 		u8 := false
@@ -507,7 +507,7 @@ func judgePrinter(rep *lib.Report, prop string, c *lib.Ctx, ln *printerLine, res
 	if is("C02") {
 		judgeC02(rep, c, ln, kase)
 	}
-	if is("C05") && !lib.HasKind(ln.C.Ts, "unsafe") && !hasScripts(ln.C.Ts) {
+	if is("C05") && !lib.HasKind(ln.C.Ts, "unsafe") && !hasScripts(ln.C.Ts) && (currentSlice != "rnd" || tokenPure(ln.C.Ts)) {
 		exp, hot := c.Expect(ln.Out, ln.Rt)
 		_ = exp
 		if !hot {
@@ -556,9 +556,23 @@ var currentHook = "none"
 // currentSlice: the slice of the specification the replayed cases come from ("" when unknown, e.g. a replay file)
 var currentSlice = ""
 
+// tokenPure: every payload of the case is made of opaque tokens (the C05 equation speaks about renderings; literal
+// bytes in a payload have no provenance in the model's output)
+func tokenPure(ts []*lib.Term) bool {
+	pure := true
+	walkTerms(ts, func(t *lib.Term) {
+		for _, x := range t.B {
+			if x < lib.PTok {
+				pure = false
+			}
+		}
+	})
+	return pure
+}
+
 func hasScripts(ts []*lib.Term) bool {
 	for _, t := range ts {
-		if len(t.Scr) > 0 || len(t.FScr) > 0 || hasScripts(t.Xs) {
+		if len(t.Scr) > 0 || len(t.FScr) > 0 || hasScripts(t.Xs) || hasScripts(t.Pan) {
 			return true
 		}
 	}
@@ -568,7 +582,7 @@ func hasScripts(ts []*lib.Term) bool {
 // judgeC02: two instantiations of the secret payloads (public ones shared); the redacted
 // results must be identical and hold no sentinel of a secret.
 func judgeC02(rep *lib.Report, c *lib.Ctx, ln *printerLine, kase json.RawMessage) {
-	if lib.HasKind(ln.C.Ts, "ptrto", "chan", "func") {
+	if printsAddresses(ln) {
 		return // pointer values are public but differ from one allocation to the next
 	}
 	u8 := false
@@ -796,7 +810,7 @@ func judgeC11(rep *lib.Report, c *lib.Ctx, ln *printerLine, res *realResult, kas
 // SafeString of the same digits; for the flag-free number renderings of %v, %+v and Sprint the two results must be
 // identical.
 func judgeSafeNumberTwin(rep *lib.Report, c *lib.Ctx, ln *printerLine, res *realResult, kase json.RawMessage) {
-	if res.Panicked || lib.HasKind(ln.C.Ts, "ptrto", "chan", "func") {
+	if res.Panicked || printsAddresses(ln) {
 		return
 	}
 	f := string(c.Subst(ln.C.F))
@@ -854,7 +868,7 @@ func judgeSafeNumberTwin(rep *lib.Report, c *lib.Ctx, ln *printerLine, res *real
 // placeholder replaced by the report %!<verb>(PANIC=<Method> method: <payload>) -- nothing lost before it,
 // nothing added after it, no second rendering of the operand.
 func judgePanicTwin(rep *lib.Report, c *lib.Ctx, ln *printerLine, res *realResult, kase json.RawMessage) {
-	if !methodPanics(ln.C.Ts) || payloadPanics(ln.C.Ts) || lib.HasKind(ln.C.Ts, "ptrto", "chan", "func") {
+	if !methodPanics(ln.C.Ts) || payloadPanics(ln.C.Ts) || printsAddresses(ln) {
 		return
 	}
 	// both runs use contexts of their own with the same object handles (handles are numbers that can show in the output)
@@ -874,7 +888,9 @@ func judgePanicTwin(rep *lib.Report, c *lib.Ctx, ln *printerLine, res *realResul
 	for k, tw := range tc.Twins {
 		payload := `(?s:.*?)`
 		if pt := tw.Payload; pt != nil && (pt.K == "string" || pt.K == "int") {
-			payload = regexp.QuoteMeta(fmt.Sprint(c.Value(pt)))
+			if txt := fmt.Sprint(c.Value(pt)); lib.WellFormed([]byte(txt)) && !bytes.Contains([]byte(txt), lib.StartM) && !bytes.ContainsAny([]byte(txt), "\n\xe2") {
+				payload = regexp.QuoteMeta(txt) // (a payload holding markers / line feeds is shown escaped: any text)
+			}
 		}
 		ph := regexp.QuoteMeta(lib.TwinPlaceholder(k))
 		if !strings.Contains(pat, ph) || strings.Contains(pat, `"`+ph) || strings.Contains(pat, "`"+ph) {
@@ -927,6 +943,20 @@ func judgePanicTwin(rep *lib.Report, c *lib.Ctx, ln *printerLine, res *realResul
 	}
 }
 
+// printsAddresses: the output may hold addresses, which differ from one run of the same call to the next
+// (pointers, channels, funcs under any verb; maps and slices under %p)
+func printsAddresses(ln *printerLine) bool {
+	if lib.HasKind(ln.C.Ts, "ptrto", "chan", "func") {
+		return true
+	}
+	for i := 0; i+1 < len(ln.C.F); i++ {
+		if ln.C.F[i] == '%' && ln.C.F[i+1] == 'p' {
+			return true
+		}
+	}
+	return false
+}
+
 func walkTerms(ts []*lib.Term, fn func(t *lib.Term)) {
 	for _, t := range ts {
 		if t == nil {
@@ -964,14 +994,17 @@ func payloadPanics(ts []*lib.Term) bool {
 	found := false
 	walkTerms(ts, func(t *lib.Term) {
 		check := func(p *lib.Term) {
-			if p.K == "obj" && (len(p.Pan) > 0) {
-				found = true
-			}
-			for _, op := range p.Scr {
-				if op.O == "Panic" {
+			// (anywhere inside the payload: a slice holding a value whose method panics, a wrapper around one, ...)
+			walkTerms([]*lib.Term{p}, func(q *lib.Term) {
+				if q.K == "obj" && (len(q.Pan) > 0) {
 					found = true
 				}
-			}
+				for _, op := range append(append([]lib.SOp{}, q.Scr...), q.FScr...) {
+					if op.O == "Panic" {
+						found = true
+					}
+				}
+			})
 		}
 		for _, p := range t.Pan {
 			check(p)
@@ -999,7 +1032,32 @@ func nilReceiverOnly(ts []*lib.Term) bool {
 
 // reachesMethods: the model recorded at least one user-method call for the case
 // (a panicking method behind an unexported field or under a non-dispatching verb is never invoked).
-func reachesMethods(ln *printerLine) bool { return len(ln.Calls) > 0 }
+func reachesMethods(ln *printerLine) bool {
+	if currentSlice != "rnd" {
+		return len(ln.Calls) > 0
+	}
+	// with several objects in one case: a method of an object that panics is among the recorded calls
+	panics := map[int]bool{}
+	walkTerms(ln.C.Ts, func(t *lib.Term) {
+		if t.K != "obj" {
+			return
+		}
+		if len(t.Pan) > 0 {
+			panics[t.ID] = true
+		}
+		for _, op := range append(append([]lib.SOp{}, t.Scr...), t.FScr...) {
+			if op.O == "Panic" {
+				panics[t.ID] = true
+			}
+		}
+	})
+	for _, cl := range ln.Calls {
+		if panics[cl.ID] {
+			return true
+		}
+	}
+	return false
+}
 
 func init() {
 	register("printer-replay", "replay MCPrinter cases on the real printer", printerReplay)
